@@ -26,6 +26,14 @@ fn validate_address(address: usize, size: usize, end_is_valid: bool) -> Result<(
     }
 }
 
+fn validate_range(address: usize, amount: usize, size: usize) -> Result<()> {
+    validate_address(address, size, false)?;
+    match address.checked_add(amount) {
+        Some(end) => validate_address(end, size, true),
+        None => Err(ArchiveError::OutOfBoundsAddress(address, size)),
+    }
+}
+
 fn validate_alignment(value: usize, bytes: usize) -> Result<()> {
     if value % bytes != 0 {
         Err(ArchiveError::UnalignedValue(value, bytes))
@@ -418,8 +426,7 @@ impl BinArchive {
     }
 
     pub fn read_bytes(&self, address: usize, amount: usize) -> Result<&[u8]> {
-        validate_address(address, self.size(), false)?;
-        validate_address(address + amount, self.size(), true)?;
+        validate_range(address, amount, self.size())?;
         Ok(&self.data[address..(address + amount)])
     }
 
@@ -543,8 +550,7 @@ impl BinArchive {
     }
 
     pub fn write_bytes(&mut self, address: usize, bytes: &[u8]) -> Result<()> {
-        validate_address(address, self.size(), false)?;
-        validate_address(address + bytes.len(), self.size(), true)?;
+        validate_range(address, bytes.len(), self.size())?;
         self.data[address..(address + bytes.len())].copy_from_slice(bytes);
         Ok(())
     }
@@ -624,8 +630,7 @@ impl BinArchive {
     }
 
     pub fn deallocate(&mut self, address: usize, amount_in_bytes: usize, ge: bool) -> Result<()> {
-        validate_address(address, self.size(), false)?;
-        validate_address(address + amount_in_bytes, self.size(), true)?;
+        validate_range(address, amount_in_bytes, self.size())?;
         validate_alignment(address, 4)?;
         validate_alignment(amount_in_bytes, 4)?;
         self.data.drain(address..(address + amount_in_bytes));
